@@ -12,7 +12,7 @@ CONFIG = {
     "level_text": "Proof on the Lean model, for all datasets, modes 1.0/1.1 x use_rdf_type: (1) dropped_iff_not_jsonld + isJsonLd_spec: the "
                   "document depends only on the quads is_jsonld keeps, and is_jsonld is exactly the property's 'expressible'; "
                   "(2) roundtrip_nolist_partial: for well-formed IRIs process_quads stores exactly the expressible quads (none dropped, none "
-                  "invented) and, when rdf:first/rest/nil are absent, nothing is marked, so jsonify omits no slot on account of lists; "
+                  "invented) and, when rdf:first/rest/nil are absent, nothing is marked, so jsonify omits no slot on account of lists; node_object_roundtrip: for one node map, make_node_object followed by the reader gives back exactly the triples it holds (all literal kinds, IRIs, blank nodes, rdf:nil, @type); "
                   "(3) no_panic_partial: the marking phase (the only code indexing unique_parent) cannot panic when every rdf:rest subject "
                   "is referenced - or on any input once the lookup is .get(..) (switch regenerated from the source); "
                   "(4) kernel-checked (decide) counterexamples to the full statements: no_panic_refuted (2-quad unreferenced list head), "
@@ -21,8 +21,8 @@ CONFIG = {
                   "predicted round-trip verdict vs JsonLdParser on the real output (exact blank-node isomorphism in the harness), on the "
                   "list-shape generator plus an exhaustive small scope (all datasets of <= 2 [quick] / <= 3-4 [thorough] quads over a "
                   "48-72 quad vocabulary).",
-    "level_note": "Not proved (stated as defs RoundtripNoList / NoPanic with the missing obligation): the rendering half of the round trip "
-                  "(make_node_object / convert_rdf_object / reader invert the stored quads; @graph links reach every named-graph slot) and "
+    "level_note": "Not proved (stated as defs RoundtripNoList / NoPanic with the missing obligation): the traversal part of the round trip "
+                  "(side conditions of node_object_roundtrip as engine invariants; @graph links reach every named-graph slot) and "
                   "panic-freedom of populate_list. Observed only: json-ld 0.15.1 (parser), JSON text printing. Excluded by the property: "
                   "use_native_types. rdf:JSON lexical forms are assumed valid JSON. Known findings (6): panic on unreferenced list heads; "
                   "list_node keyed by label only; self-containing lists dropped; rdf:type rdf:List of compacted cells dropped (as in the "
@@ -31,7 +31,7 @@ CONFIG = {
     "lean_targets": ["SophiaProofs.Props.C12", "SophiaProofs.Audit.C12"],
     "theorems": ["no_panic_witness", "no_panic_refuted", "no_panic_partial", "dropped_iff_not_jsonld", "isJsonLd_spec",
                  "roundtrip_refuted_cross_graph", "roundtrip_refuted_self_list", "roundtrip_refuted_typed_list",
-                 "suppressed_compensated_refuted", "roundtrip_all_refuted", "roundtrip_nolist_partial"],
+                 "suppressed_compensated_refuted", "roundtrip_all_refuted", "roundtrip_nolist_partial", "node_object_roundtrip"],
     "native_ok": [],
     "panic_is_reply": True,
     "trivial_re": r"kept=0( |$)",
